@@ -2240,4 +2240,52 @@ instance admissibleDec : (n : Node) → (ops : List Op) → Decidable (Admissibl
     | isFalse h1, _ => isFalse (fun h => h1 h.1)
     | _, isFalse h2 => isFalse (fun h => h2 h.2)
 
+/-! ## traffic of other exchanges keeps flowing -/
+
+theorem mrp_postRecv_noretrans (m : Mrp) (c : Nat) (a : Option Nat) (rel : Bool) (now : Nat) (h : m.retrans = none) :
+    (m.postRecv c a rel now).2 = none ∧ (m.postRecv c a rel now).1.retrans = none := by
+  unfold Mrp.postRecv
+  cases a <;> cases rel <;> simp [h]
+
+/-- `post_recv` of a fresh message for an owner that is not waiting for an acknowledgement -/
+theorem postRecv_owner_eval (z : Sess) (h : RxHdr) (now : Nat) (i : Nat) (e : Exch)
+    (hd : (Dedup.postRecv z.rx h.ctr z.mode.enc false).2 = true) (hg : z.getExchForRx h = some i)
+    (he : z.slot i = some e) (hnr : e.mrp.retrans = none) :
+    (z.postRecv h now).2 = .ok false ∧
+    ∃ m', (z.postRecv h now).1.slot i = some { e with mrp := m' } ∧ m'.retrans = none := by
+  obtain ⟨h1, h2⟩ := mrp_postRecv_noretrans e.mrp h.ctr h.ack h.reliable now hnr
+  unfold Sess.postRecv
+  simp only [hd, Bool.not_true, Bool.false_eq_true, ↓reduceIte]
+  generalize hs0 : ({ z with rx := (Dedup.postRecv z.rx h.ctr z.mode.enc false).1 } : Sess) = s0
+  have hget : s0.getExchForRx h = some i := by subst hs0; exact hg
+  have hsl : s0.slot i = some e := by subst hs0; exact he
+  simp only [hget, hsl, h1]
+  refine ⟨trivial, (e.mrp.postRecv h.ctr h.ack h.reliable now).1, ?_, h2⟩
+  rw [setMrp_slot]; simp [hsl]
+
+theorem arrive_owner_eval {n : Node} (hi : Inv n) (hrx : n.rx = none) {s : Sess} (hs : s ∈ n.t.sessions)
+    {i : Nat} {e : Exch} (he : s.slot i = some e) (hnr : e.mrp.retrans = none) (m : Msg) (rnd : Nat)
+    (hf : s.isForRx m.port m.sid = true) (hfor : e.isForRx m.hdr = true)
+    (hk1 : m.kind ≠ .sack) (hk2 : m.kind ≠ .close)
+    (hfresh : (Dedup.postRecv s.rx m.ctr s.mode.enc false).2 = true) :
+    arrive n m rnd =
+      ({ n with t := (n.t.setSess (touch s n.now)).setSess ((touch s n.now).postRecv m.hdr n.now).1,
+                rx := some { m := m, arrivedAt := n.now } }, .kept s.uid i false) ∧
+    ∃ m', ((touch s n.now).postRecv m.hdr n.now).1.slot i = some { e with mrp := m' } ∧ m'.retrans = none := by
+  have hg : (touch s n.now).getExchForRx m.hdr = some i :=
+    getExchForRx_of_slot s (hi.tinv.uniq s hs) _ i e he hfor
+  obtain ⟨hok, m', hsl, hm'⟩ := postRecv_owner_eval (touch s n.now) m.hdr n.now i e hfresh hg he hnr
+  refine ⟨?_, m', hsl, hm'⟩
+  unfold arrive
+  rw [hrx]
+  simp only
+  rw [getForRx_mem hi.tinv hs hf]
+  simp only
+  unfold finishArrive
+  simp only [hok, hk1, hk2, ↓reduceIte]
+  have hu := exchUniq_postRecv (touch s n.now) m.hdr n.now (touch_uniq n.now (hi.tinv.uniq s hs))
+  have hfor' : ({ e with mrp := m' } : Exch).isForRx m.hdr = true := hfor
+  rw [getExchForRx_of_slot _ hu m.hdr i _ hsl hfor']
+  rfl
+
 end RxPath
